@@ -43,6 +43,7 @@ deriving DecidableEq, Repr
 
 structure St where
   workers : List Nat                  -- indices of `worker_handles`
+  wakeFirst : Bool := true            -- order of the first two steps of `handle_cmd(Stop)`
   stopping : Bool := false
   returned : Bool := false
   panicked : Bool := false            -- `assert!(worker_handles.iter().any(..))` failed
@@ -56,23 +57,21 @@ def ackEv : Option Nat → List Ev
   | none => []
 
 /-- the events of `handle_cmd(Stop { graceful, completion })`, in program order (server.rs:242-281).
+`wakeFirst`: the accept thread is told to stop before (`true`, the order in the tree) or after the
+workers are; C06 does not depend on that order (the worker itself must not take the accept thread's
+exit for a stop command, finding F8 — see `Worker.closedArm`), so every theorem holds for both. -/
+def stopEvs (wakeFirst : Bool) (workers : List Nat) (graceful : Bool) (completion : Option Nat) : List Ev :=
+  (if wakeFirst then [.wake .stop] ++ workers.map (.stopWorker · graceful) else workers.map (.stopWorker · graceful) ++ [.wake .stop]) ++
+    (if graceful then workers.map .awaitWorker else []) ++ [.joinAccept] ++ ackEv completion
 
-**Order demanded by C06** (finding F7): `Stop` is sent to every worker *before* the accept thread is told
-to stop.  When the accept thread exits it drops its worker handles, which closes the workers'
-connection channels; a worker that observes the closed channel before its `Stop` finishes at once
-(worker.rs `None => return Poll::Ready(())`) and the connections it is serving die — also on a
-graceful stop, whose `join_all` then sees only dropped reply senders and completes immediately.  The
-original tree wakes the accept thread first; `fixes/C06-stop-workers-before-accept.patch` swaps the two
-statements.  `Props/C06.source_shape` checks the order against the source on every run. -/
-def stopEvs (workers : List Nat) (graceful : Bool) (completion : Option Nat) : List Ev :=
-  workers.map (.stopWorker · graceful) ++ [.wake .stop] ++ (if graceful then workers.map .awaitWorker else []) ++
-    [.joinAccept] ++ ackEv completion
+/-- the order in the source, read by T1 (`srv_handle_stop_order`) -/
+def srcWakeFirst : Bool := decide (Src.hcStopOrder.idxOf "wake_stop" < Src.hcStopOrder.idxOf "stop_workers")
 
 /-- `handle_cmd` -/
 def handle (s : St) : Cmd → St
   | .pause a => emit s [.wake .pause, .ack a]
   | .resume a => emit s [.wake .resume, .ack a]
-  | .stop g comp => { (emit s (stopEvs s.workers g comp)) with stopping := true }
+  | .stop g comp => { (emit s (stopEvs s.wakeFirst s.workers g comp)) with stopping := true }
   | .workerFaulted idx =>
     if idx ∈ s.workers then emit s [.restartWorker idx, .wake (.worker idx)] else { s with panicked := true }
 
@@ -125,6 +124,7 @@ def calls (y : Sys) : List Call → Sys
   | c :: cs => calls (call y c).1 cs
 
 /-- a server with workers `0..n-1`, after the calls `cs` were made, run to quiescence -/
-def serve (n : Nat) (cs : List Call) : St := runLoop { workers := List.range n } (calls {} cs).cmds
+def serve (wakeFirst : Bool) (n : Nat) (cs : List Call) : St :=
+  runLoop { workers := List.range n, wakeFirst := wakeFirst } (calls {} cs).cmds
 
 end ActixNet.ServerCmd
